@@ -64,6 +64,25 @@ Apply(tx, w0) ==
     [] tx.k = "set_ext"   -> EnvResult(TRUE, w0, [w0 EXCEPT !.ext = [swap |-> tx.swap, oracle |-> tx.oracle, price |-> tx.price]])
     [] tx.k = "set_canredel" -> EnvResult(TRUE, w0, [w0 EXCEPT !.canRedel[tx.v] = tx.b])
     [] tx.k = "set_legacy"   -> EnvResult(TRUE, w0, [w0 EXCEPT !.legacy = tx.entries])     \* test set-up only: pre-migration storage
+    [] tx.k = "deliver"   -> EnvResult(TRUE, w0, [w0 EXCEPT !.bank["reward"][tx.d] = @ + tx.a])       \* coins sent to the reward contract
+    [] tx.k = "instantiate_token" ->                                                                \* a fresh token contract at address tx.c
+         LET r == TokInstantiate(tx.c, "hub", IF tx.c = "stsei" THEN "owner" ELSE "", tx.init)
+         IN EnvResult(r.ok, w0, [w0 EXCEPT ![tx.c] = r.t])
+    [] tx.k = "instantiate" ->                                                                      \* a fresh hub / dispatcher instance
+         IF tx.c = "hub"
+         THEN EnvResult(DecLe(tx.fee, One), w0,
+                [w0 EXCEPT !.hubCfg = [owner |-> tx.sender, nominee |-> tx.sender, updater |-> "updater", dispatcher |-> "", registry |-> "",
+                                       bsei |-> "", stsei |-> "", airdrop |-> "", rewards |-> ""],
+                           !.hubPar = [epoch |-> tx.epoch, unbonding |-> tx.unbonding, fee |-> tx.fee, thr |-> DecMin(tx.thr, One),
+                                       denom |-> "usei", rdenom |-> "kusd", paused |-> FALSE],
+                           !.hub = [bondB |-> 0, bondSt |-> 0, rateB |-> One, rateSt |-> One, prevBal |-> 0,
+                                    lastUnb |-> w0.now, lastProc |-> 0, lastIdx |-> w0.now],
+                           !.batch = [id |-> 1, reqB |-> 0, reqSt |-> 0], !.hist = <<>>,
+                           !.wait = [u \in Accts |-> [i \in 1..MaxBatch |-> NoWait]], !.legacy = <<>>])
+         ELSE EnvResult(DecLe(tx.rate, One), w0,
+                [w0 EXCEPT !.disp = [owner |-> tx.sender, nominee |-> tx.sender, hub |-> "hub", reward |-> "reward",
+                                     stDenom |-> "usei", bDenom |-> "kusd", keeper |-> "keeper", rate |-> tx.rate,
+                                     swap |-> "swap", swapDenoms |-> <<"usei", "kusd", "ufor">>, oracle |-> "oracle"]])
     [] tx.k = "probe"     -> LET r == Tx(w0, tx.tx.sender, tx.tx.c, tx.tx.msg, tx.tx.funds)        \* dry run: outcome observed, nothing committed
                              IN [ok |-> r.ok, err |-> r.err, w |-> w0, fx |-> r.fx]
 
@@ -90,6 +109,9 @@ EvSlash(v, n)       == [k |-> "slash", v |-> v, n |-> n]
 EvSlashUnb(v, n)    == [k |-> "slash_unb", v |-> v, n |-> n]
 EvAccrue(v, d, a)   == [k |-> "accrue", v |-> v, d |-> d, a |-> a]
 EvDonate(u, a)      == [k |-> "donate", u |-> u, a |-> a]
+EvDeliver(d, a)     == [k |-> "deliver", d |-> d, a |-> a]
+TxIndexUpdate       == ExecTx("dispatcher", "reward", [k |-> "update_global_index"], <<>>)
+TxMint(tok, u, a)   == ExecTx("hub", tok, [k |-> "mint", recipient |-> u, amount |-> a], <<>>)
 
 -----------------------------------------------------------------------------
 \* ghosts: pure functions of (g, pre-world, event, post-world); never read by Apply
